@@ -692,8 +692,13 @@ func marshalField(out *bytes.Buffer, v reflect.Value, info *fieldInfo) error {
 		// General version: use a separate Buffer to write the slice entries into.
 		var innerBuf bytes.Buffer
 		for i := 0; i < v.Len(); i++ {
+			before := innerBuf.Len()
 			if err := marshalField(&innerBuf, v.Index(i), nil); err != nil {
 				return err
+			}
+			if innerBuf.Len() == before {
+				// Such an element could never be decoded again (see parseField).
+				return structuralError{info.fieldName(), "zero-length element in slice"}
 			}
 		}
 
